@@ -126,6 +126,8 @@ def _diff(e, x, memo):
                 return da / (2 * e)
             if n == "erf":
                 return _mul((2 / SQRTPI) * exp_term(-(a * a)), da)
+            if n == "abs":
+                return _mul(z3.If(a >= 0, z3.RealVal(1), z3.RealVal(-1)), da)
             if n == "tanh":
                 return _mul(1 - e * e, da)
             if n == "cos":
